@@ -7,6 +7,7 @@ import Spydr.Common.Proto
 import Spydr.Edif.ModelRead
 import Spydr.Edif.ModelWrite
 import Spydr.Edif.Fragment
+import Spydr.Edif.Unrender
 
 open Lean Spydr.Edif
 
@@ -210,14 +211,16 @@ def acellOfJson (j : Json) : Except String ACell := do
     pure ({ name := ← anameOfJson (← i.getObjVal? "name"), li := ← Spydr.Proto.getNat i "li", di := ← Spydr.Proto.getNat i "di",
             viewSp := ← strOf (← i.getObjVal? "vsp"), cellSp := ← strOf (← i.getObjVal? "csp"),
             libSp := ← strOf (← i.getObjVal? "lsp"),
-            props := ← (← Spydr.Proto.getArr i "props").toList.mapM apropOfJson } : AInst)
+            props := ← (← Spydr.Proto.getArr i "props").toList.mapM apropOfJson,
+            libOmit := (match i.getObjVal? "lomit" with | .ok (.bool b) => b | _ => false) } : AInst)
   pure { name := ← anameOfJson (← j.getObjVal? "name"), view := ← strOf (← j.getObjVal? "view"), ports := ports, insts := insts,
          nets := ← (← Spydr.Proto.getArr j "nets").toList.mapM anetOfJson }
 
 def adesignOfJson (j : Json) : Except String ADesign := do
   let libs ← (← Spydr.Proto.getArr j "libs").toList.mapM fun l => do
     pure ({ name := ← anameOfJson (← l.getObjVal? "name"),
-            cells := ← (← Spydr.Proto.getArr l "cells").toList.mapM acellOfJson } : ALib)
+            cells := ← (← Spydr.Proto.getArr l "cells").toList.mapM acellOfJson,
+            external := (match l.getObjVal? "ext" with | .ok (.bool b) => b | _ => false) } : ALib)
   pure { name := ← anameOfJson (← j.getObjVal? "name"), libs := libs, top := ← anameOfJson (← j.getObjVal? "top"),
          topLi := ← Spydr.Proto.getNat j "tli", topDi := ← Spydr.Proto.getNat j "tdi",
          topCellSp := ← strOf (← j.getObjVal? "tcsp"), topLibSp := ← strOf (← j.getObjVal? "tlsp") }
@@ -233,7 +236,7 @@ def pairJson (n i : Option Str) : Json := Json.arr #[optStrJson n, optStrJson i]
 def v05Json (v : V05) : Json := Json.mkObj [
   ("name", pairJson v.name v.ident),
   ("libs", Json.arr (v.libs.map fun l => Json.mkObj [
-    ("name", pairJson l.name l.ident),
+    ("name", pairJson l.name l.ident), ("external", Json.bool l.external),
     ("cells", Json.arr (l.cells.map fun c => Json.mkObj [
       ("name", pairJson c.name c.ident), ("view", optStrJson c.view),
       ("ports", Json.arr (c.ports.map fun p => Json.mkObj [
@@ -296,6 +299,20 @@ def handle (st : Unit) (j : Json) : Except String (Unit × Json) := do
         | .error e => errJson e
       pure (st, Json.mkObj [("wf", Json.bool d.wf), ("text", Json.str (String.ofList text)), ("denote", v05Json (denote d)),
                             ("model", model)])
+  | "inside05" =>
+      -- is this text inside C05.edif_reader_spec_erased?  `Unr.insideClause` checks the hypotheses of the theorem
+      -- (inside_check_sound); when inside: what the abstract design found denotes, and the model's view of the text
+      let t ← Spydr.Proto.getStr j "text"
+      match readS (lexE t.toList) with
+      | none => pure (st, Json.mkObj [("in", Json.bool false), ("clause", Json.str "unbalanced")])
+      | some (e, _) =>
+        match Unr.insideClause e with
+        | some c => pure (st, Json.mkObj [("in", Json.bool false), ("clause", Json.str c)])
+        | none =>
+          match Unr.unrender (strip e), ofSExp e with
+          | .ok d, .ok n =>
+            pure (st, Json.mkObj [("in", Json.bool true), ("denote", v05Json (denote d)), ("model", v05Json (view05 n))])
+          | _, _ => pure (st, Json.mkObj [("in", Json.bool false), ("clause", Json.str "internal")])
   | _ => throw s!"unknown fn {fn}"
 
 end Spydr.Edif.Drv
